@@ -64,8 +64,52 @@ def build(t, env):
     return t
 
 
+CUSTOM = {}
+CUSTOM_EXT = {
+    "VerifObj": "extension-definition--0c9d6f0e-5a4b-4f7e-9d25-11a0c13c0001",
+    "VerifObj2": "extension-definition--0c9d6f0e-5a4b-4f7e-9d25-11a0c13c0002",
+    "VerifSco": "extension-definition--0c9d6f0e-5a4b-4f7e-9d25-11a0c13c0003",
+}
+
+
+def register_custom():
+    """Custom types declared through the public decorators, with extension_name=
+    (stix2/custom.py then inserts the type's own extension into the object's
+    `extensions`), and one without.  Registered once per worker process; not
+    part of the model's class tables (cases using them are snapshot-tested)."""
+    if CUSTOM:
+        return
+    from stix2 import properties as P
+    from stix2.v21 import CustomObject, CustomObservable
+
+    def props():
+        return [("name", P.StringProperty(required=True)), ("items", P.ListProperty(P.StringProperty)),
+                ("meta", P.DictionaryProperty(spec_version="2.1"))]
+
+    @CustomObject("x-verif-obj", props(), extension_name=CUSTOM_EXT["VerifObj"])
+    class VerifObj(object):
+        pass
+
+    @CustomObject("x-verif-obj2", props(), extension_name=CUSTOM_EXT["VerifObj2"])
+    class VerifObj2(object):
+        pass
+
+    @CustomObservable("x-verif-sco", props(), ["name"], extension_name=CUSTOM_EXT["VerifSco"])
+    class VerifSco(object):
+        pass
+
+    @CustomObject("x-verif-plain", props())
+    class VerifPlain(object):
+        pass
+
+    CUSTOM.update({"VerifObj": VerifObj, "VerifObj2": VerifObj2, "VerifSco": VerifSco, "VerifPlain": VerifPlain})
+
+
 def cls_of(name):
     mod, cn = name.split(".")
+    if mod == "custom":
+        register_custom()
+        return CUSTOM[cn]
     m = getattr(stix2, mod)
     if hasattr(m, cn):
         return getattr(m, cn)
@@ -743,6 +787,7 @@ def main():
         except WorldError as e:
             print(json.dumps({"world_error": str(e)}))
         return
+    register_custom()        # eagerly: the behaviour of a case must not depend on which cases ran before it
     signal.signal(signal.SIGALRM, _alarm)
     try:
         lim = 6 * 1024 ** 3
